@@ -42,7 +42,8 @@ RULE = ("dyadic axes of 1-40 points x every width 1..2n+3 x three positions x st
 TRUSTED = ["xarray sel / reindex, pandas slice_indexer, numpy arange / diff / mean / isclose (modelled, validated by correspondence)",
            "symbolic tracer stubs of an xarray.DataArray with one range dimension (harness/props/c17.py _kernel_stubs)"]
 ASSUMPTIONS = ["binary64 arithmetic is exact on the dyadic axes used for the exact comparisons",
-               "axes strictly increasing with unique coordinates, step > 0 (the property's quantifier: regular axes)",
+               "axes strictly increasing with unique coordinates, step > 0 (the property's quantifier: regular axes); the "
+               "kernel ties identify coords[0] / coords[-1] with the minimum / maximum label accordingly",
                "free-mode monitors: requested ends are nominal lattice points or half-way between two; the expected "
                "number of samples is the nominal count"]
 NOT_COMPARED = ["error messages (only the error class)", "`start` / `stop` attributes written by extend_dim",
@@ -505,13 +506,32 @@ def _kernel_stubs():
         def __len__(self):
             raise Untraceable("length of the coordinate array")
 
+    class SMask:
+        """a boolean mask over the labels, given by inclusive bounds: `(labels >= lo) & (labels <= hi)`"""
+        def __init__(self, lo=None, hi=None):
+            self.lo, self.hi = lo, hi
+
+        def __and__(self, o):
+            if not isinstance(o, SMask) or (self.lo is not None and o.lo is not None) or (self.hi is not None and o.hi is not None):
+                raise Untraceable("unsupported combination of label masks")
+            return SMask(self.lo if self.lo is not None else o.lo, self.hi if self.hi is not None else o.hi)
+
+        __rand__ = __and__
+
     class SCoord:
         """`arr.coords[dim]` / `arr.indexes[dim]` / `arr[dim]`"""
         dtype = numpy.dtype("float64")
         dims = (_DIM,)
+        __hash__ = None
 
         def __init__(self):
             self.attrs = {"step": sy["step"], "units": "s"}
+
+        def __ge__(self, v):
+            return SMask(lo=v)
+
+        def __le__(self, v):
+            return SMask(hi=v)
 
         data = property(lambda self: SArr([("orig",)]))
         values = property(lambda self: SArr([("orig",)]))
@@ -577,6 +597,20 @@ def _kernel_stubs():
             if not isinstance(sl, slice) or sl.step is not None or method is not None:
                 raise Untraceable("crop_dim no longer takes a plain label slice")
             return SResult("sel", (sl.start, sl.stop))
+
+        def where(self, cond, other=None, drop=False):
+            if not isinstance(cond, SMask) or cond.lo is None or cond.hi is None or not drop:
+                raise Untraceable("crop_dim no longer selects an inclusive label range")
+            return SResult("sel", (cond.lo, cond.hi))
+
+        @property
+        def loc(self):
+            outer = self
+
+            class Loc:
+                def __getitem__(self, key):
+                    return outer.sel(key if isinstance(key, dict) else {_DIM: key})
+            return Loc()
 
         def reindex(self, indexers=None, method=None, tolerance=None, copy=True, fill_value=None, **kw):
             cs = self._one(indexers, kw)
